@@ -208,6 +208,9 @@ def struct_children(g, n_cp=None):
             f.attrs.append(g.member_map(cps, named_target=(shape == "named"), idx=i))
         it.fields.append(f)
 
+    if shape == "named" and g.chance(0.08):
+        # a member poured into the counterpart by its own IntoExisting impl, next to the flattened ones
+        it.fields.insert(r.randint(0, len(it.fields)), Field(f"pz{g.mark()}", f"P{g.mark()}", [Instr("parent", "parent", container=None, fields=None)]))
     # nested structs that only path-addressed ghosts fill (no #[child] field maps into them)
     ghost_only = []
     if shape == "named" and g.chance(0.3):
